@@ -88,16 +88,17 @@ def gen_wires(rng, n):
     return rng.sample(range(n), m)
 
 
-def gen_det(rng):
-    n = rng.choice([1, 2, 2, 3, 3, 3, 4])
+def gen_det(rng, jax=False):
+    """jax=True: JAX path (eager XLA compiles per shape are slow, so shapes come from a narrow set)"""
+    n = rng.choice([2, 3]) if jax else rng.choice([1, 2, 2, 3, 3, 3, 4])
     k = rng.choice([1, 2, 2, 3, 3])
-    be = rng.choices(["numpy", "numpyB", "jax"], [0.5, 0.3, 0.2])[0]
+    be = "jax" if jax else rng.choices(["numpy", "numpyB"], [0.6, 0.4])[0]
     c = {"n": n, "k": k, "backend": be}
     bad_norm = be != "jax" and rng.random() < 0.05
     tot = None
     if bad_norm:
         tot = rng.choice([m for m in TABLES[k] if m not in (0, 4 ** k)])
-    if rng.random() < 0.5:
+    if rng.random() < (0.7 if jax else 0.5):
         c["kind"] = "state"
         c["batched"] = rng.random() < 0.25
         nb = rng.randint(1, 3) if c["batched"] else 1
@@ -105,14 +106,16 @@ def gen_det(rng):
         c["wires"] = None if rng.random() < 0.3 else gen_wires(rng, n)
         if rng.random() < 0.03:
             c["wires"] = (c["wires"] or [0])[:1] + [n + rng.randint(0, 2)]   # unknown wire
-        c["shots"] = rng.choice([1, 2, 3, 5, 8, 13, 24])
+        c["shots"] = rng.choice([4, 6]) if jax else rng.choice([1, 2, 3, 5, 8, 13, 24])
         c["extra"] = rng.choice([0, 0, 0, 2])
         c["us"] = gen_uniforms(rng, c["shots"] * nb + c["extra"], 4 ** k)
     else:
         c["kind"] = "measure"
         c["states"] = [gen_amps(rng, n, k, tot)]
         r = rng.random()
-        if r < 0.35:
+        if jax:
+            sv = rng.choice([[6], [3, 3], [2, 4]])
+        elif r < 0.35:
             sv = [rng.choice([1, 2, 5, 9, 20])]
         else:
             base = rng.randint(1, 7)
@@ -181,7 +184,7 @@ def gen_obs(rng, n, paulis="XYZH"):
 
 def gen_valid(rng, i):
     n = rng.randint(1, 4)
-    c = {"n": n, "dev": ["numpy", "jax", "mixed"][i % 3], "seed": rng.randrange(10 ** 6),
+    c = {"n": n, "dev": ["numpy", "jax", "mixed", "numpy", "mixed"][i % 5], "seed": rng.randrange(10 ** 6),
          "gates": gen_circuit(rng, n, clifford=rng.random() < 0.4)}
     c["sv"] = [rng.choice([1, 7, 50, 200])] if rng.random() < 0.4 else [rng.choice([1, 5, 10, 33]) for _ in range(rng.randint(2, 4))]
     mps = []
@@ -202,7 +205,7 @@ def gen_valid(rng, i):
 
 def gen_stat(rng, i, nshots):
     n = rng.randint(1, 4)
-    c = {"n": n, "dev": ["numpy", "jax", "numpy", "jax", "mixed"][i % 5], "seed": rng.randrange(10 ** 6),
+    c = {"n": n, "dev": ["numpy", "jax", "mixed"][i % 3], "seed": rng.randrange(10 ** 6),
          "gates": gen_circuit(rng, n), "ws": [] if rng.random() < 0.4 else gen_wires(rng, n),
          "obs": [gen_obs(rng, n, "XYZ") for _ in range(rng.randint(0, 2))]}
     c["sv"] = [nshots] if rng.random() < 0.6 else [nshots // 2, nshots // 2]
@@ -471,13 +474,14 @@ def run(ctx):
     rng = ctx.rng
     quick = ctx.tier == "quick"
     n_det = 700 if quick else 6000
-    n_valid = 45 if quick else 400
-    n_stat = 15 if quick else 40
+    n_jax = 12 if quick else 80
+    n_valid = 40 if quick else 400
+    n_stat = 12 if quick else 40
     nshots = 20000 if quick else 1000000
 
     det = [dict(c) for c in CORPUS]
     while len(det) < n_det:
-        det.append(gen_det(rng))
+        det.append(gen_det(rng, jax=len(det) < len(CORPUS) + n_jax))
     valid = [gen_valid(rng, i) for i in range(n_valid)]
     stat = [gen_stat(rng, i, nshots) for i in range(n_stat)]
     if getattr(ctx, "replay", None):
